@@ -520,3 +520,8 @@ func valueLeaves(c *core.Ctx, v ssa.Value) []string {
 	sort.Strings(out)
 	return dedup(out)
 }
+
+// closuresOf: the direct closures of fn, including named functions that took the place of one (see core.AliasedClosures).
+func closuresOf(fn *ssa.Function) []*ssa.Function {
+	return append(append([]*ssa.Function{}, fn.AnonFuncs...), core.AliasedClosures(fn)...)
+}
